@@ -2,9 +2,9 @@
 from props.proxy_common import *
 
 ID = "C06"
-COQ_TARGETS = ["Run/Run_Proxy.vo"]
+COQ_TARGETS = ["Run/Run_Proxy.vo", "Run/Run_ProxyDyn.vo", "ProxyP/DynamicP.vo"]
 META = {
-    "text": "Theorems (Properties/C06.v) over the Gallina cluster model of piko's proxy data path: a node with a local upstream for the endpoint serves locally whatever its routing "
+    "text": "C06_dynamic_* (Proxy/Dynamic.v): over ANY history of upstream connects / disconnects / go-aways and requests every reachable state is well formed, a node holding a balancer for the endpoint dials one of its members itself whatever happened before, every request makes at most one inter-node hop, a refused dial (go-away upstream) is answered 502 without retry or further hop and deregisters exactly that upstream on the dialling node; dynamic clusters of the harness (one continuous run of the real servers) are evaluated on this model as one history. Theorems (Properties/C06.v) over the Gallina cluster model of piko's proxy data path: a node with a local upstream for the endpoint serves locally whatever its routing "
             "table says; for EVERY combination of per-node views, placements, entry node and route (HTTP, TCP) a delivery makes at most two proxy-handler invocations, its trace has "
             "one of six legal shapes, a request carrying x-piko-forward: true is never forwarded again (served locally or 502), and there is never more than one outgoing request per "
             "handler invocation; the pinned transform is refuted (H1: Connection: x-piko-forward). Tied to the code by driving 1..4 REAL proxy.Server instances with adversarial views "
